@@ -24,6 +24,7 @@ EXPLANATION = (
     ' (g) The lazy accessors Job.document / Job.stores initialise without validation, so evaluating dst.document in a dry run cannot write a state point file.'
     ' (i) Every path of Job.init to a write has validate_statepoint true or has seen os.path.isdir(self.path) fail (propositional reasoning over the branch facts).'
     ' The deep comparator class is found wherever it lives in the package. (j) command line front end of sync: empty selection by identity, selection not computed in the destination, exclude / deep / dry_run / recursive / parallel reach Project.sync unchanged (C15-j).'
+    ' A selection is not re-bound after it was computed from -f / -j (C15-j).'
 )
 UNDECIDED = "That parallel and sequential runs leave identical destination trees, and what a dry run prints, are not decided."
 
